@@ -46,7 +46,9 @@ import trgen as T
 
 RELEASE_RULE = ("1-3 real clients of mixed transports (RTSP/TCP, RTSP/UDP, multicast, ws-rtsp, WSP, HTTP-FLV, ws-FLV) attach to a registered "
                 "media.Stream at scripted positions of a 4-14 packet script, some stop mid-stream (TEARDOWN or dropped connection), "
-                "then the stream ends (Close / replaced / idle); after every event: stream.ConsumerCount, the active RTSP / FLV / WSP "
+                "in 40% of the cases a second publisher registers the same path while the first client is attached (the old stream is retired "
+                "but alive; consumer ids are per stream) and the first client leaves later; "
+                "then the streams end (Close / replaced / idle); after every event: ConsumerCount of every stream generation, the active RTSP / FLV / WSP "
                 "connection counters relative to their values before the first attach, which connections have ended (EOF at the "
                 "client), media.Count; the oracle ok_release demands the release specification's run exactly.")
 
@@ -54,7 +56,9 @@ def transport_release(ck):
     rng = ck.rng
     n = 900 if ck.thorough else 70
     pool = [T.TCP, T.TCP, T.UDP, T.WSRTSP, T.WSP, T.HTTPFLV, T.WSFLV, T.MCAST]
-    cases = [T.gen_case(rng, False, pool, max_pkts=10, allow_big=False) for _ in range(n)]
+    # 40%: a second publisher registers the path while the first client is attached to the old stream
+    # (which lives on while it has consumers); later clients attach to the new stream; the first one leaves
+    cases = [T.gen_case(rng, False, pool, max_pkts=10, allow_big=False, replace_p=0.4) for _ in range(n)]
     ck.stream("transport-release", cases, None, "C03_transports", "C03_wire_ok", compare=False,
               nontrivial=lambda c: len(c[2]) >= 2 or any(e[0] == 2 for e in c[3]),
               sig=lambda c, e, o: "transport-release", timeout=1500)
